@@ -147,6 +147,9 @@ pub struct Case {
     /// protobuf -- and the property is read back from what they wrote ("via each sink")
     #[serde(default)]
     pub sinks: bool,
+    /// what the ambient context already holds under the case's key when an ambient hop pushes the props
+    #[serde(default)]
+    pub enclosing: crate::obs::Enclosing,
 }
 
 pub const STATICS: [&str; 8] = ["", "static text", "info", "0000000000000001", "caf\u{e9} \u{1F600}", "line\nbreak\t\"q\"", "1.5", "null"];
@@ -718,6 +721,9 @@ fn eval_read(exp: &Expect, r: &Read, buffered: bool, ev: &mut Eval, at: &str) {
 /// Compare every read along the path with the expectation.
 pub fn judge(exp: &Expect, hops: &[Hop], reads: &[Read], cx: &mut Cx) -> Res {
     for r in reads {
+        if let Some(label) = r.enclosing {
+            cx.class(label);
+        }
         let prefix = &hops[..r.hops];
         let buffered = prefix.iter().any(|h| h.buffers());
         let at = if prefix.is_empty() { "direct".to_string() } else { format!("after {prefix:?}") };
@@ -754,5 +760,5 @@ pub fn want_for(case: &Case) -> Want {
             Subj::Derived(d) => crate::derived::nested_seq(d),
             _ => false,
         };
-    Want { ids: matches!(case.subj, Subj::Wk(_)), as_map: case.as_map, nohint }
+    Want { ids: matches!(case.subj, Subj::Wk(_)), as_map: case.as_map, nohint, enc: case.enclosing }
 }
